@@ -152,7 +152,7 @@ theorem C06_ident_expand_partial (style : Style) (q : Char) (n : Str) (h : style
       exact C06_ident_roundtrip q n
   · simp [expandPercent, hp, C06_ident_roundtrip]
 
-example : (Style.named).percent = false ∨ ('%' ∉ ['a', '%', 'b'] ∧ '"' ≠ '%') := Or.inl rfl
+example : (Style.named).percent = false ∨ ('%' ∉ ['a', '%', 'b'] ∧ '\x22' ≠ '%') := Or.inl rfl
 
 /-! ### LIKE -/
 
@@ -171,9 +171,9 @@ def LikeKind.py : LikeKind → Str → Str → Bool
   | .startswith, x, s => x.isPrefixOf s
   | .endswith, x, s => endsWithB x s
 
-theorem py_contains_iff (x s : Str) : LikeKind.py .contains x s = true ↔ x <:+: s := containsB_iff x s
-theorem py_startswith_iff (x s : Str) : LikeKind.py .startswith x s = true ↔ x <+: s := List.isPrefixOf_iff_prefix
-theorem py_endswith_iff (x s : Str) : LikeKind.py .endswith x s = true ↔ x <:+ s := endsWithB_iff x s
+theorem C06_py_contains_iff (x s : Str) : LikeKind.py .contains x s = true ↔ x <:+: s := containsB_iff x s
+theorem C06_py_startswith_iff (x s : Str) : LikeKind.py .startswith x s = true ↔ x <+: s := List.isPrefixOf_iff_prefix
+theorem C06_py_endswith_iff (x s : Str) : LikeKind.py .endswith x s = true ↔ x <:+ s := endsWithB_iff x s
 
 private theorem like_kind (e : Option Char) (X x : Str) (h : Spells e X x) (k : LikeKind) (s : Str) :
     likeMatch e ((if truthyS k.before then k.before.getD [] else []) ++ X ++ (if truthyS k.after then k.after.getD [] else [])) s
@@ -298,25 +298,6 @@ theorem C06_mod_percent (style : Style) : expandPercent style (modSymbol style) 
   cases style <;> decide
 
 /-! ### other literal kinds -/
-
-theorem unhex_hex (n : Nat) (h : n < 16) : unhexDigit (hexDigit n) = some n := by
-  revert n; decide
-
-theorem hexDigit_ne_quote (n : Nat) : hexDigit n ≠ '\'' := by
-  by_cases h : n < 16
-  · revert n; decide
-  · have : 16 ≤ n := by omega
-    obtain ⟨m, rfl⟩ : ∃ m, n = 16 + m := ⟨n - 16, by omega⟩
-    simp [hexDigit, List.getD]
-
-theorem unhexlify_hexlify (b : List Nat) (h : ∀ x ∈ b, x < 256) : unhexlify (hexlify b) = some b := by
-  induction b with
-  | nil => rfl
-  | cons x b ih =>
-    have hx : x < 256 := h x (by simp)
-    have ih' := ih (fun y hy => h y (by simp [hy]))
-    simp only [hexlify, unhexlify, unhex_hex (x / 16) (by omega), unhex_hex (x % 16) (by omega), ih']
-    congr 2; omega
 
 /-- **Bytes**: `X'<hexlify(b)>'` is one blob literal denoting exactly the bytes `b`. -/
 theorem C06_bytes_roundtrip (d : Dialect) (style : Style) (b : List Nat) (h : ∀ x ∈ b, x < 256) :
